@@ -304,8 +304,11 @@ void run_vegas_highdim(vf::Ctx& c)
     T const value = hep::vegas_iteration(ig, N, pdf, eng).value();
     c.desc << vf::type_name<T>::get() << " VEGAS high-dimensional d=" << dims << " bins=" << bins << " m=" << m << " grid(dim 0)=" << how << ' ' << f.describe();
     long double const expect = f.integral(std::vector<long double>(1, 0.0L), std::vector<long double>(1, 1.0L));
-    // the uniform dimensions contribute factors bins * (1/bins) = 1 +- eps each
-    judge<T>(c, value, expect, 64 * vf::eps<T>() * dims * f.magnitude(), "C01:vegas-biased", "VEGAS in " + std::to_string(dims) + " dimensions, lattice in dimension 0");
+    // The uniform dimensions are sampled at generated (not lattice) positions, so their weight factors do not telescope:
+    // a bin width is the difference of two boundaries that each carry a rounding error of eps/2, i.e. bins * width is
+    // 1 +- bins * eps per dimension and point (1000 bins in float: 1e-4). Worst case bound over all points:
+    judge<T>(c, value, expect, vf::eps<T>() * (64.0L * dims + static_cast<long double>(bins) * (dims - 1)) * f.magnitude(), "C01:vegas-biased",
+        "VEGAS in " + std::to_string(dims) + " dimensions, lattice in dimension 0");
     c.sub += N;
     c.label("VEGAS");
     c.label("vegas-high-dimension");
